@@ -773,5 +773,121 @@ def rule_marker_queues(ctx):
     r(ctx, 'C04.j')
 
 
+
+def rule_future_inspection(ctx):
+    """C12.n  Looking at an application future cannot end the receive loop.  Future.exception() and Future.result()
+    raise CancelledError for a cancelled future - a BaseException, which passes the receive loop's `except Exception`
+    and is taken by the receiver for its own cancellation: the whole connection is torn down without a word to the peer.
+    Every call of .exception() / .result() in the library is dominated, on every path that reaches it, by a test that
+    the same future is not cancelled (`.cancelled()` false), or sits in a `try` that catches CancelledError /
+    BaseException."""
+    rep = ctx.report
+    n = 0
+    for f in ctx.repo.all_functions():
+        if not f.module.name.startswith(('rsocket.', 'reactivestreams.')) or f.module.name.startswith('rsocket.cli'):
+            continue
+        sites = [x for x in walk_local(f.node) if isinstance(x, ast.Call) and isinstance(x.func, ast.Attribute) and
+                 x.func.attr in ('exception', 'result') and not x.args and not x.keywords]
+        if not sites:
+            continue
+        for x in sites:
+            n += 1
+            subject = ast.unparse(x.func.value)
+            # lexical protection by a try that catches the cancellation
+            protected = False
+            for t in walk_local(f.node):
+                if isinstance(t, ast.Try) and any(y is x for b in t.body for y in ast.walk(b)):
+                    for h in t.handlers:
+                        ht = ast.unparse(h.type) if h.type is not None else 'BaseException'
+                        if 'CancelledError' in ht or 'BaseException' in ht:
+                            protected = True
+            ok = protected
+            if not ok:
+                # dominated, on every path that reaches the call, by `<future>.cancelled()` having come out false
+                ok = True
+                reached = 0
+                for p in ctx.paths(f, f.cls, inline_depth=0):
+                    evs = [e for e in p.events if e.kind == 'call' and e.data.get('name') == x.func.attr and
+                           e.node is x]
+                    if not evs:
+                        continue
+                    reached += 1
+                    tests = [c for c in p.events if c.kind == 'cond' and c.seq < evs[0].seq and
+                             'cancelled' in repr(strip_epoch(c.data['key']))]
+                    not_cancelled = [c for c in tests if (strip_epoch(c.data['key'])[0] == 'truth' and
+                                                          not c.data['value']) or
+                                     (strip_epoch(c.data['key'])[0] == 'not' and c.data['value'])]
+                    if not not_cancelled:
+                        ok = False
+                if reached == 0:
+                    ok = _cancel_tested_before(f.node, x, subject)
+            rep.add('C12.n', '%s / %s.%s() only for a future known not to be cancelled' % (
+                f.qualname.split(':')[-1], subject, x.func.attr), (f.file, x.lineno), ok,
+                'behind a cancelled() test' if ok else
+                '%s.%s() raises CancelledError for a cancelled future: a BaseException, which the receive loop takes for '
+                'its own cancellation - one cancelled application future ends the connection' % (subject, x.func.attr))
+    rep.require('C12.n', 'inspections of a future\'s result or exception', n, 2)
+
+
+def _cancel_tested_before(fnode, call, subject):
+    """True when on every way to `call` a test `<x>.cancelled()` of the same future (or of an alias named like the
+    subject's last component) came out false."""
+    def is_cancel_test(e):
+        return any(isinstance(c, ast.Call) and isinstance(c.func, ast.Attribute) and c.func.attr == 'cancelled'
+                   for c in ast.walk(e))
+
+    def contains(node):
+        return any(y is call for y in ast.walk(node))
+
+    def search(stmts):
+        for i, s in enumerate(stmts):
+            if not contains(s):
+                continue
+            if isinstance(s, ast.If):
+                if contains(s.test):
+                    # the inspection is itself in a test: what precedes it in the chain counts (handled by caller)
+                    return False
+                if any(contains(b) for b in s.body):
+                    neg = isinstance(s.test, ast.UnaryOp) and isinstance(s.test.op, ast.Not) and is_cancel_test(s.test)
+                    return neg or search(s.body)
+                # in the orelse: this if's own test came out false
+                if is_cancel_test(s.test) and not (isinstance(s.test, ast.UnaryOp) and isinstance(s.test.op, ast.Not)):
+                    return True
+                return search_orelse(s)
+            for field in ('body', 'orelse', 'finalbody'):
+                sub = getattr(s, field, None)
+                if isinstance(sub, list) and any(contains(b) for b in sub if isinstance(b, ast.AST)):
+                    return search(sub)
+            for h in getattr(s, 'handlers', []) or []:
+                if any(contains(b) for b in h.body):
+                    return search(h.body)
+            # earlier guard clause in the same block: `if x.cancelled(): return`
+            for prev in stmts[:i]:
+                if isinstance(prev, ast.If) and is_cancel_test(prev.test) and prev.body and \
+                        isinstance(prev.body[-1], (ast.Return, ast.Raise, ast.Continue)):
+                    return True
+            return False
+        return False
+
+    def search_orelse(ifnode):
+        # elif chain: the call may be in the test or body of a later arm
+        for s in ifnode.orelse:
+            if isinstance(s, ast.If) and (contains(s.test) or any(contains(b) for b in s.body + s.orelse)):
+                if contains(s.test):
+                    return True if False else _earlier_cancel(ifnode)
+                if any(contains(b) for b in s.body):
+                    return _earlier_cancel(ifnode) or search(s.body)
+                return _earlier_cancel(ifnode) or (is_cancel_test(s.test) and not isinstance(s.test, ast.UnaryOp)) \
+                    or search_orelse(s)
+        return _earlier_cancel(ifnode) and any(contains(b) for b in ifnode.orelse)
+
+    def _earlier_cancel(ifnode):
+        return is_cancel_test(ifnode.test) and not (isinstance(ifnode.test, ast.UnaryOp) and
+                                                    isinstance(ifnode.test.op, ast.Not))
+
+    return search(fnode.body)
+
+
+
 RULES = [('C12.a', rule_a), ('C12.b', rule_b), ('C12.c', rule_c), ('C12.d', rule_d), ('C12.e', rule_e),
-         ('C12.f', rule_f), ('C14.f', rule_g), ('C12.b', rule_h), ('C13.d', rule_i), ('C12.g', rule_j), ('C12.h', rule_k), ('C12.i', rule_l), ('C12.j', rule_m), ('C12.k', rule_exception_text), ('C12.l', rule_error_conversion), ('C02.h', rule_decoder_entry), ('C12.m', rule_empty_messages), ('C04.j', rule_marker_queues)]
+         ('C12.f', rule_f), ('C14.f', rule_g), ('C12.b', rule_h), ('C13.d', rule_i), ('C12.g', rule_j), ('C12.h', rule_k), ('C12.i', rule_l), ('C12.j', rule_m), ('C12.k', rule_exception_text), ('C12.l', rule_error_conversion), ('C02.h', rule_decoder_entry), ('C12.m', rule_empty_messages), ('C04.j', rule_marker_queues), ('C12.n', rule_future_inspection)]
